@@ -247,6 +247,7 @@ pub fn scenarios(prop: &str, tier: Tier) -> Vec<Box<dyn Scenario>> {
                 c("mapref_fold", vec![PVar, Fst(0), Var, Fold(vec![1, 2, 1])], vec![3], l),
             ]
         }
+        "C14" => vec![Box::new(crate::c14::DynSum { len: if q { 6 } else { 8 }, with_bind: false }), Box::new(crate::c14::DynSum { len: if q { 5 } else { 7 }, with_bind: true })],
         "C20" => vec![Box::new(crate::c20::Memo { len: if q { 6 } else { 8 }, recursive: false }), Box::new(crate::c20::Memo { len: if q { 6 } else { 8 }, recursive: true })],
         "C19" => vec![Box::new(crate::c19::HeightLimit { max_n: if q { 6 } else { 10 } }), Box::new(crate::c19::Misuse)],
         "C13" => {
@@ -402,6 +403,15 @@ pub fn meta(prop: &str, tier: Tier) -> PropMeta {
             assumptions: common_assume,
             rule: "as C01",
             must_cover: vec!["state-dropped-before-handles", "leak-check-after-stabilise"],
+        },
+        "C14" => PropMeta {
+            level: "other",
+            functions: vec!["incremental::expert::{Node::new, add_dependency, add_dependency_with, remove_dependency, make_stale, invalidate, WeakNode}", "kind::expert::ExpertNode::{add_child_edge, swap_children, pop_child_edge, before_main_computation, run_edge_callback, observability_change, incr/decr_invalid_children}", "Node::{expert_add_dependency, expert_remove_dependency, expert_swap_children_except_in_kind, expert_remove_child, expert_make_stale, child_changed, add_parent_without_adjusting_heights, invalidate_node, propagate_invalidity}", "state::expert::*"],
+            bounds: format!("one expert node = sum (+) of the values delivered by the change callbacks of its current dependencies, followed by a map; dependencies are edited from the function of a child node according to a plan (multiplicity 0..2 on a var and on a map node, 0..1 on a bind main and on the node the bind's closure builds, which is invalidated whenever the bind re-runs); histories of {} (without bind children) / {} (with) actions from {{change the plan for one child, write the control var (runs the reconcile function), write a leaf var, write the bind's lhs, observe / unobserve the expert's dependant, keep a child needed by another observer, ask for make_stale, ask for invalidate, stabilise}}. Join and bind constructions are the special cases with exactly one dependency", if q { 6 } else { 8 }, if q { 5 } else { 7 }),
+            outside: vec!["more than one expert node; expert nodes created inside bind closures; dependencies added from edge callbacks (forbidden by the documentation); on_observability_change callbacks"],
+            assumptions: common_assume,
+            rule: "as C01; values use + over integers (QF_UFLIA)",
+            must_cover: vec!["duplicate-dependency-on-one-child", "one-of-two-dependencies-on-the-same-child-removed", "dependency-on-invalidated-child-removed", "make_stale", "invalidate", "expert-unobserved", "expert-observed-again"],
         },
         "C20" => PropMeta {
             level: "other",
